@@ -59,6 +59,10 @@ def scenarios(seed, tier):
             yield 'dst%d' % i, {'stream': 'textbook', 'case': s}
     for x in _split_cases(seed, 25 if tier == 'quick' else 250):
         yield x
+    # an asset on a coarser frequency over fine steps of unequal length: the volume of each fine step is rate x ITS length
+    from ..comp import periodic as PE
+    for i in range(n // 8):
+        yield 'coarse%d' % i, {'stream': 'coarse-unequal', 'case': PE.gen_case(random.Random(rnd.getrandbits(48)), oracle=True, kind='freq', dst=True)}
 
 
 def _split_cases(seed, n):
@@ -79,6 +83,13 @@ def run_case(c, drv):
         from . import c14
         r = c14.run_case(c['case'], drv)
         r['features'].append('stream:split-other-unit')
+        return r
+    if c['stream'] == 'coarse-unequal':
+        from . import c13
+        r = c13.run_case(c['case'], drv)
+        r['features'].append('stream:coarse-unequal-steps')
+        # of the oracles of C13 only the one that is C12's statement: volume of every fine step = rate x its own length
+        r['violations'] = [v for v in r['violations'] if v.get('oracle') == 'coarse_constant_rate']
         return r
     r = {'evaluated': 1, 'nontrivial': False, 'features': ['stream:' + c['stream']], 'disagreements': [], 'violations': []}
     if c['stream'] == 'build':
